@@ -626,7 +626,7 @@ func insertSeparatorsEvery(s string, sep rune, interval int) string {
 	for n > 0 {
 		pos := 0
 		for i := 0; i < interval; i++ {
-			_, w := utf8.DecodeLastRuneInString(s[:end])
+			_, w := utf8.DecodeLastRuneInString(s[:end-pos])
 			pos += w
 		}
 		chunks[n] = s[end-pos : end]
